@@ -97,13 +97,12 @@ def unpackSpec (v : Nat) : SpecF :=
 
 /-! ### run2d strings -/
 
-def isDigit (c : Char) : Bool := '0' ≤ c && c ≤ '9'
+def isDigit (c : Char) : Bool := c.isDigit
 
-def digitsVal (cs : List Char) : Nat :=
-  cs.foldl (fun acc c => acc * 10 + (c.toNat - '0'.toNat)) 0
+def digitsVal (cs : List Char) : Nat := Nat.ofDigitChars 10 cs 0
 
 /-- longest digit prefix and the rest (`\d+` is greedy and cannot backtrack past a non-digit) -/
-def spanDigits (cs : List Char) : List Char × List Char := cs.span isDigit
+def spanDigits (cs : List Char) : List Char × List Char := (cs.takeWhile isDigit, cs.dropWhile isDigit)
 
 /-- the documented encoding of 'vN_M_P' -/
 def run2dOfNMP (n m p : Nat) : R Nat :=
